@@ -30,7 +30,7 @@ type c10ImageCase struct {
 }
 
 func genC10Image(t *rapid.T) c10ImageCase {
-	c := c10ImageCase{Limit: rapid.SampledFrom([]int64{1, 16, 64}).Draw(t, "limit")}
+	c := c10ImageCase{Limit: rapid.SampledFrom([]int64{1, 16, 64, 1, 16, 64, 4095, 32768, 32769, 40000, 50000, 65537, 100000}).Draw(t, "limit")}
 	L := int(c.Limit)
 	nl := rapid.IntRange(1, 3).Draw(t, "n_layers")
 	paths := []string{"a", "d/b", "d/c", "e/f/g", "h"}
@@ -44,7 +44,7 @@ func genC10Image(t *rapid.T) c10ImageCase {
 				continue
 			}
 			used[p] = true
-			sz := rapid.SampledFrom([]int{L - 1, L, L + 1, 2 * L, 0, 1, L - 1, L}).Draw(t, "size")
+			sz := rapid.SampledFrom([]int{L - 1, L, L + 1, 2 * L, 0, 1, L - 1, L, 3*L + 7, L + 32768, L + 4096}).Draw(t, "size")
 			if sz < 0 {
 				sz = 0
 			}
